@@ -19,6 +19,7 @@ import runlayer
 import vlib
 
 PID = "C19"
+CONFIRM_BY_REPLAY = True   # a new deviation is reported only if replaying its stored case repeats it
 META = {
     "cat": "model_checking",
     "text": "Cache.tla (ChangeOpt action) is model-checked: the ideal key keeps runs transparent, a key that omits an option yields a stale-cache "
